@@ -521,6 +521,34 @@ example : locateIn 0x5000#64 (locateOut 0x1000#64
     = ⟨0x50a8, 0x5100, 0x5200, 0x5300, 0x5400, 0x5500, 0x5600, 0x5700, 0x4000, 0x5800, 0x5900, 0x5a00, 0x5b00⟩ := by
   decide
 
+/-- **relocation_members_tied**: the members that `locate_out` and `locate_in` relocate in the source — read from both
+    functions on every run, with the ones under `if (prog->type_start)` marked — are exactly the members of the model's
+    `ProgPtrs`, in the same order and under the same guard, on both sides -/
+theorem relocation_members_tied :
+    Gen.C17.locateOutMembers = relocatedMembers ∧ Gen.C17.locateInMembers = relocatedMembers ∧
+      relocatedMembers.length = (ProgPtrs.fields ⟨0, 0, 0, 0, 0, 0, 0, 0, 0, 0, 0, 0, 0⟩).length := by
+  decide
+
+/-- **every_pointer_member_handled**: every pointer-typed member of `program_t` (read from lib/lpc/program.h on every
+    run) is either relocated by locate_out/locate_in or is one of the members that do not point into the program
+    block, and those `load_binary` assigns itself; a pointer member added to the struct breaks this obligation until it
+    is put into one of the two lists -/
+theorem every_pointer_member_handled :
+    (∀ m, m ∈ Gen.C17.programPointerMembers → m ∈ relocatedMembers.map (·.1) ∨ m ∈ rebuiltMembers) ∧
+      (∀ m, m ∈ rebuiltMembers → m ∈ Gen.C17.loadBinaryAssigns) ∧
+      (∀ m, m ∈ relocatedMembers.map (·.1) → m ∈ Gen.C17.programPointerMembers) := by
+  decide
+
+/-- **only_switch_keys_are_addresses**: the operands the code generator stores as machine words (`ins_intptr`, read from
+    icode.c on every run) are the three kinds of switch-table key the model knows; the only address among them is the
+    string-switch key, which is what the patch list covers (`all_string_switches_patched`).  A new address-valued operand
+    (a function name, a class name …) emitted into the byte code breaks this obligation. -/
+theorem only_switch_keys_are_addresses : Gen.C17.intptrOperands = modelIntptrOperands := by
+  decide
+
+/-- the model of qsort.c mirrors as many statements as qSort + quickSort have -/
+theorem qsort_statements_tied : Gen.C17.qsortStatements = modelQsortStatements := by decide
+
 /-! ## (d) string switch tables -/
 
 theorem swLe_trans (a b c : SwEntry) : swLe a b = true → swLe b c = true → swLe a c = true := by
